@@ -14,6 +14,9 @@ IEEE-754 bit pattern; `N` = None.
         FracMinHashComparison / PrefetchResult / GatherResult / SearchResult on two sketches; the 17 tokens are the MinHash-level
         answers on the sketches downsampled to the comparison scaled (acc1 acc2, containment_ani A->B, B->A, max_containment_ani:
         ani lo hi px each, jaccard_ani: ani px jx) -- INPUTS; the model derives every class-level field from them
+  cmpani <lenA> <lenB> <common> <scaled> <k> <par> <acc1> <acc2> <c12> <c21> <mc> <j|E..>
+        the compare-level ANI entry points on [A, B]: compare_all_pairs(return_ani=True) serial and (par=1) n_jobs=2, compare_serial,
+        compare_serial_containment / _max_containment / _avg_containment(return_ani=True); the MinHash-level `.ani` values are INPUTS
   clsnum <lenA> <lenB> <common> <num> <k>                     NumMinHashComparison / SearchResult on num sketches
   sia <len> <scaled> <rel> <conf> <cdfHi> <cdfLo> <pmfLo|N>    MinHash(len hashes, scaled).size_is_accurate(rel, conf); the three scipy
         results are INPUTS; the model reproduces which scipy calls are made, with which arguments, the probability and the answer
@@ -262,6 +265,28 @@ def step (st : Unit) (line : String) : Unit × String :=
       | some a1, some a2, some r12, some r21, some mc, some j => (st, clsLine cm sa sb cs ci a1 a2 r12 r21 mc j)
       | _, _, _, _, _, _ => bad
     | _, _, _, _ => bad
+  | ["cmpani", la, lb, cm, scaled, k, par, acc1, acc2, c12, c21, mc, j] =>
+    match nats? [la, lb, cm, scaled, k], bool? par, bool? acc1, bool? acc2, optFl? c12, optFl? c21, optFl? mc with
+    | some [la, lb, cm, scaled, k], some par, some a1, some a2, some c12, some c21, some mc =>
+      if k = 0 ∨ scaled = 0 ∨ cm > la ∨ cm > lb then bad else
+      let jv : Option (Except String (Option Float)) :=
+        if j.startsWith "E" && j.length > 1 then some (.error (j.drop 1).toString) else (optFl? j).map .ok
+      match jv with
+      | none => bad
+      | some jv =>
+        let z : Float := 0.0
+        let two (x y : Float) : String := s!"{fb x},{fb y}"
+        let jent := match jv with
+          | .ok a => let v := compareAniEntry z a; two v v
+          | .error e => "E" ++ e
+        let jref := match jv with
+          | .ok a => ofb a
+          | .error e => "E" ++ e
+        let av := compareAvgAniEntry avgF z c21 c12
+        (st, s!"ok ref.acc={b2s a1}{b2s a2} ref.c12={ofb c12} ref.c21={ofb c21} ref.mc={ofb mc} ref.j={jref} ser={jent} ser1={jent} " ++
+          s!"par={if par then jent else "-"} cont={two (compareAniEntry z c21) (compareAniEntry z c12)} " ++
+          s!"max={two (compareAniEntry z mc) (compareAniEntry z mc)} avg={two av av}")
+    | _, _, _, _, _, _, _ => bad
   | ["clsnum", la, lb, cm, num, k] =>
     match nats? [la, lb, cm, num, k] with
     | some [la, lb, cm, num, k] =>
